@@ -95,20 +95,36 @@ Theorem C19_eq_real_real_numeric : forall f g,
 Proof. exact teq_real_real_numeric. Qed.
 Print Assumptions C19_eq_real_real_numeric.
 
-(* partial: integer against real agrees with the numeric order up to 2^53 ... *)
-Theorem C19_cmp_mixed_partial : forall i r,
-  (Z.abs i <= 2 ^ 53)%Z -> is_finite 53 1024 r = true ->
+(* integer against real: the numeric order, for every i64 (repair d3f91fb of finding A-30) ... *)
+Theorem C19_cmp_mixed : forall i r,
+  (- two63 <= i < two63)%Z -> is_finite 53 1024 r = true ->
   tcmp (TInt i) (TReal r) = Some (Rcompare (IZR i) (B2R 53 1024 r)).
-Proof. exact tcmp_mixed_partial. Qed.
-Print Assumptions C19_cmp_mixed_partial.
+Proof. exact tcmp_mixed. Qed.
+Print Assumptions C19_cmp_mixed.
 
-(* ... and not beyond: 2^53+1 <= 2^53.0 holds (finding A-30) *)
-Theorem C19_cmp_mixed_refuted :
+(* ... and for whatever counts as an integer (nil: 0, string or table: its length), both ways *)
+Theorem C19_cmp_mixed_any : forall a r,
+  is_real a = false -> (- two63 <= to_i64 a < two63)%Z -> is_finite 53 1024 r = true ->
+  tcmp a (TReal r) = Some (Rcompare (IZR (to_i64 a)) (B2R 53 1024 r)) /\
+  tcmp (TReal r) a = Some (Rcompare (B2R 53 1024 r) (IZR (to_i64 a))).
+Proof. exact tcmp_mixed_any. Qed.
+Print Assumptions C19_cmp_mixed_any.
+
+(* the implemented algorithm (truncate, tie by the fractional part, range guards) equals the
+   exact comparison by cross-multiplication; integer arithmetic only *)
+Theorem C19_cmp_int_real_exact : forall i x,
+  (- two63 <= i < two63)%Z -> cmp_int_real i x = Z_cmp_sf i x.
+Proof. exact cmp_int_real_exact. Qed.
+Print Assumptions C19_cmp_int_real_exact.
+
+(* before d3f91fb the integer was rounded first: 2^53+1 compared Equal to 2^53.0 (A-30) *)
+Theorem C19_cmp_mixed_legacy_refuted :
   exists i r, is_finite 53 1024 r = true /\ (Z.abs i <= 2 ^ 53 + 1)%Z /\
-    tcmp (TInt i) (TReal r) = Some Eq /\ tle (TInt i) (TReal r) = true /\
-    Rcompare (IZR i) (B2R 53 1024 r) = Gt.
-Proof. exact tcmp_mixed_refuted. Qed.
-Print Assumptions C19_cmp_mixed_refuted.
+    tcmp_legacy (TInt i) (TReal r) = Some Eq /\
+    Rcompare (IZR i) (B2R 53 1024 r) = Gt /\
+    tcmp (TInt i) (TReal r) = Some Gt.
+Proof. exact tcmp_legacy_mixed_refuted. Qed.
+Print Assumptions C19_cmp_mixed_legacy_refuted.
 
 (* ---- nil counts as 0, a string or table as its length, against a number ---- *)
 Theorem C19_cmp_nil_as_zero : forall b, ValueProofs.is_number b = true ->
@@ -186,7 +202,8 @@ Theorem C19_coherentb_correct : forall c, coherentb c = true -> coherent c.
 Proof. exact coherentb_correct. Qed.
 Print Assumptions C19_coherentb_correct.
 
-(* ---- the checker's integer-only oracle for Integer/Real comparisons is the numeric order ---- *)
+(* ---- the exact integer/real comparison (the checker's oracle, and by C19_cmp_int_real_exact
+   the implemented one) is the numeric order ---- *)
 Theorem C19_oracle_Z_cmp_sf_correct : forall i r, is_finite 53 1024 r = true ->
   Z_cmp_sf i (sf r) = Some (Rcompare (IZR i) (B2R 53 1024 r)).
 Proof. exact Z_cmp_sf_correct. Qed.
